@@ -2,20 +2,23 @@
 """Run every kept behaviour-preserving refactoring (benign/b1/<id>/patch.diff, written by independent sub-agents) against all
 twenty quick checks and list the alarms; writes benign/b1/STATUS.json.  Every alarm is a false alarm (DESIGN.md 10.5a / 10.6).
 
-usage: tools/benignall.py [<id> ...]      (scratch copies under /tmp, removed afterwards; /repo is never touched)"""
+usage: tools/benignall.py [b1|b2] [<id> ...]      (scratch copies under /tmp, removed afterwards; /repo is never touched)"""
 import os, sys, json, glob, subprocess
 
 VERIF = os.path.dirname(os.path.dirname(os.path.abspath(__file__)))
 
 
 def main(argv):
-    ids = argv or sorted(os.path.basename(d) for d in glob.glob(os.path.join(VERIF, 'benign', 'b1', 'C*-*')))
+    rnd = 'b1'
+    if argv and argv[0] in ('b1', 'b2'):
+        rnd, argv = argv[0], argv[1:]
+    ids = argv or sorted(os.path.basename(d) for d in glob.glob(os.path.join(VERIF, 'benign', rnd, 'C*-*')))
     status = {}
-    sp = os.path.join(VERIF, 'benign', 'b1', 'STATUS.json')
+    sp = os.path.join(VERIF, 'benign', rnd, 'STATUS.json')
     if os.path.exists(sp):
         status = json.load(open(sp))
     for i in ids:
-        patch = os.path.join(VERIF, 'benign', 'b1', i, 'patch.diff')
+        patch = os.path.join(VERIF, 'benign', rnd, i, 'patch.diff')
         r = subprocess.run([sys.executable, os.path.join(VERIF, 'tools', 'benigneval.py'), patch], capture_output=True, text=True)
         try:
             res = json.loads(r.stdout)
